@@ -19,6 +19,7 @@ def generate(tier, rng):
         c.add(e, in_domain=info[e.id]['nooverlap'])
         for s, cls in strcorpus.parse_inputs(rng, e, info[e.id], tier, max_full=5 if tier == 'quick' else 10):
             c.op(e.id, 'parse %s' % hx(s), ('custom:' if e.err else 'std:') + cls)
+    strcorpus.pointwise_domain(c)
     return c
 
 
